@@ -102,7 +102,7 @@ func (u *Universe) sortOf(t types.Type, bv bool) Sort {
 	case *types.Struct:
 		return Sort(u.structDT(t).Name)
 	case *types.Array:
-		return SInt // arrays as values are not supported; pointer-to-array is a ref
+		return arraySort(SInt, u.sortOf(x.Elem(), false))
 	case *types.Tuple:
 		return SInt
 	}
@@ -189,6 +189,10 @@ func (u *Universe) zeroOf(t types.Type, s Sort) Term {
 	case SIface:
 		return nilIface
 	}
+	if at, ok := t.Underlying().(*types.Array); ok {
+		es := u.sortOf(at.Elem(), false)
+		return Term{fmt.Sprintf("((as const %s) %s)", s, u.zeroOf(at.Elem(), es).S), s}
+	}
 	if st, ok := t.Underlying().(*types.Struct); ok {
 		d := u.structDT(t)
 		if st.NumFields() == 0 {
@@ -211,9 +215,17 @@ func (u *Universe) tagOf(t types.Type) int { return u.typeTag(typeName(t)) }
 func (P *Program) implementers(iface *types.Interface) []types.Type {
 	var out []types.Type
 	for _, t := range P.allConcrete() {
-		if types.Implements(t, iface) {
-			out = append(out, t)
+		if !types.Implements(t, iface) {
+			continue
 		}
+		// *T where the non-struct T itself implements the interface is not a
+		// representation the code uses (e.g. *ast.List)
+		if pt, ok := t.(*types.Pointer); ok {
+			if _, isStruct := pt.Elem().Underlying().(*types.Struct); !isStruct && types.Implements(pt.Elem(), iface) {
+				continue
+			}
+		}
+		out = append(out, t)
 	}
 	return out
 }
